@@ -173,6 +173,41 @@ pub fn run(ctx: &Ctx) -> Report {
     }
     let st = explore(&ctx.pool, jobs, j);
     rep.part("more files than RLIMIT_NOFILE=1024 allows to hold open", st, serde_json::json!({}));
+    // one worker stalled while the other keeps going (the worker class split into individual threads)
+    let mut jobs = vec![];
+    for n in [280usize, 560] {
+        let s = Arc::new(Scenario::new(&format!("fds-stalled-worker-parblock-w2-n{}", n), tree(n), &["-r", "--driver", "parblock", "-w", "2", "src", "dst"]));
+        let v = |x: &[&str]| x.iter().map(|y| y.to_string()).collect::<Vec<String>>();
+        for o in [
+            v(&["0.1.1.1", "0.1.1", "0.1.2", "0.1", "0", "0.1.1.2"]),
+            v(&["0.1.1.2", "0.1.1", "0.1.2", "0.1", "0", "0.1.1.1"]),
+            v(&["0.1.1", "0.1.2", "0.1.1.1", "0.1", "0", "0.1.1.2"]),
+            v(&["0.1.2", "0.1.1", "0.1.1.2", "0", "0.1", "0.1.1.1"]),
+            v(&["0.1.1.1", "0.1.2", "0.1.1", "0", "0.1", "0.1.1.2"]),
+            v(&["0.1.2", "0.1.1.2", "0.1.1", "0.1", "0", "0.1.1.1"]),
+        ] {
+            let mut sp = RunSpec::base(Policy::Prio(o));
+            sp.step_limit = 3_000_000;
+            jobs.push((s.clone(), sp, 0usize));
+        }
+    }
+    // the same with a worker held at its first copy call (it owns a job) until nothing else can run
+    for d in drivers() {
+        for n in [280usize, 560] {
+            let s = Arc::new(Scenario::new(&format!("fds-held-worker-{}-w2-n{}", d, n), tree(n), &["-r", "--driver", d, "-w", "2", "src", "dst"]));
+            let workers: Vec<&str> = if d == "parblock" { vec!["0.1.1.1", "0.1.1.2"] } else { vec!["0.1.2", "0.1.3"] };
+            for wk in workers {
+                for pol in [Policy::P0, Policy::P1] {
+                    let mut sp = RunSpec::base(pol);
+                    sp.step_limit = 3_000_000;
+                    sp.faults.push(crate::sup::Fault { call: "copy_file_range".into(), thread: Some(wk.to_string()), nth: Some(1), path_contains: None, action: crate::sup::Action::Hold });
+                    jobs.push((s.clone(), sp, 0usize));
+                }
+            }
+        }
+    }
+    let st = explore(&ctx.pool, jobs, j);
+    rep.part("one worker starved or held at its first copy call (it owns a job) while everything else runs", st, serde_json::json!({"orders": 6, "held": "each worker, both base policies"}));
     // --fsync: syncing must not keep descriptors (or threads) around per file
     let mut jobs = vec![];
     for d in drivers() {
